@@ -31,14 +31,15 @@ static std::string fam = "@FAM@";
 static TasmanianSparseGrid make(int variant){
   TasmanianSparseGrid g;
   int outs = (variant % 2 == 0) ? 2 : 0;
-  if (fam == "Global") g.makeGlobalGrid(2, outs, 3, type_level, rule_clenshawcurtis);
+  if (fam == "Global" && variant == 5) g.makeGlobalGrid(2, outs, 3, type_level, rule_gaussjacobi, std::vector<int>(), 1.0 / 3.0, 2.0 / 7.0);   /* parameters that are not short decimals */
+  else if (fam == "Global") g.makeGlobalGrid(2, outs, 3, type_level, rule_clenshawcurtis);
   else if (fam == "Sequence") g.makeSequenceGrid(2, outs, 3, type_level, rule_leja);
   else if (fam == "LocalPolynomial") g.makeLocalPolynomialGrid(2, outs, 3, (variant % 3) + 1, rule_localp);
   else if (fam == "LocalPolynomialB") g.makeLocalPolynomialGrid(2, outs, 2, (variant % 3) + 1, (variant % 2) ? rule_localpb : rule_semilocalp);
   else if (fam == "Wavelet") g.makeWaveletGrid(2, outs, 2, 1);
   else g.makeFourierGrid(2, outs, 2, type_level);
   if (variant % 3 == 1) g.setDomainTransform(std::vector<double>{-1.5, 2.0}, std::vector<double>{3.0, 4.5});
-  if (variant % 3 == 2 && fam != "Fourier" && fam != "Wavelet") g.setConformalTransformASIN(std::vector<int>{4, 6});
+  if (variant % 3 == 2 && fam != "Fourier" && fam != "Wavelet" && fam != "Global") g.setConformalTransformASIN(std::vector<int>{4, 6});
   if (outs > 0){
     std::vector<double> p = g.getNeededPoints(), v((size_t) g.getNumNeeded() * outs);
     for (int i = 0; i < g.getNumNeeded(); i++){ v[outs*i] = std::exp(p[2*i] - 0.3 * p[2*i+1]); v[outs*i+1] = p[2*i] * p[2*i+1]; }
@@ -56,7 +57,7 @@ static TasmanianSparseGrid make(int variant){
   return g;
 }
 static bool same(const TasmanianSparseGrid &a, const TasmanianSparseGrid &b, const char *what){
-  bool ok = a.getNumDimensions() == b.getNumDimensions() && a.getNumOutputs() == b.getNumOutputs() && a.getNumLoaded() == b.getNumLoaded() && a.getNumNeeded() == b.getNumNeeded() && a.getRule() == b.getRule();
+  bool ok = a.getNumDimensions() == b.getNumDimensions() && a.getNumOutputs() == b.getNumOutputs() && a.getNumLoaded() == b.getNumLoaded() && a.getNumNeeded() == b.getNumNeeded() && a.getRule() == b.getRule() && a.getAlpha() == b.getAlpha() && a.getBeta() == b.getBeta();
   if (ok) ok = a.getPoints() == b.getPoints() && a.getNeededPoints() == b.getNeededPoints();   /* getLoadedPoints() of a grid without outputs writes through a null pointer (observation, outside C06) */
   if (ok && a.getNumOutputs() > 0 && a.getNumLoaded() > 0){
     ok = std::vector<double>(a.getLoadedValues(), a.getLoadedValues() + (size_t) a.getNumLoaded() * a.getNumOutputs()) == std::vector<double>(b.getLoadedValues(), b.getLoadedValues() + (size_t) b.getNumLoaded() * b.getNumOutputs());
@@ -143,7 +144,7 @@ def jobs(tier, seed, prop):
         R = X.Rules()
         t, info = iotape.emit(R, fam)
         for mode in ("ascii", "binary"):
-            pre = ('#include "tsg_shim.h"\nint tsg_exc;\n' + enums + helpers + '#define WRITE write_%s_%s\n#define READ read_%s_%s\n' % (fam, mode, fam, mode)
+            pre = ('#include "tsg_shim.h"\nint tsg_exc;\n#define TAPE_ASCII %d\n' % (mode == "ascii") + enums + helpers + '#define WRITE write_%s_%s\n#define READ read_%s_%s\n' % (fam, mode, fam, mode)
                    + '#line 1 "/verif/contracts/iotape.c"\n' + cf.text(("text",)) + t)
             out.append(Job("iotape.%s.%s" % (fam, mode), pre + cf.text(("harness",), ["h_" + fam]), "h_" + fam, unwind=42, timeout=300,
                            functions=["%s:%d %s" % (f["file"], f["line"], f["name"]) for f in info["functions"]], info=info, replay=make_replay(prop, fam),
